@@ -18,6 +18,7 @@ import (
 	"context"
 	"errors"
 	"fmt"
+	"math"
 	"time"
 
 	"github.com/attestantio/dirk/rules"
@@ -137,6 +138,16 @@ func (s *Service) runSignBeaconAttestationChecks(_ context.Context, metadata *ru
 
 	sourceEpoch := req.Source.Epoch
 	targetEpoch := req.Target.Epoch
+
+	// The state is held as signed 64-bit values, so epochs above the maximum signed value cannot be protected.
+	if sourceEpoch > math.MaxInt64 || targetEpoch > math.MaxInt64 {
+		log.Warn().
+			Uint64("sourceEpoch", sourceEpoch).
+			Uint64("targetEpoch", targetEpoch).
+			Msg("Request epoch out of range")
+
+		return rules.DENIED
+	}
 
 	// The request target epoch must be greater than the request source epoch (or both 0).
 	if (sourceEpoch != 0 || targetEpoch != 0) && (targetEpoch <= sourceEpoch) {
